@@ -177,15 +177,28 @@ def accessor(ctx):
             np.arange(np.datetime64("9996-01-01", "s"), np.datetime64("9999-12-21", "s"), np.timedelta64(86400, "s")),
         ])
         ranges.append(("s-edges", part))
+    # microsecond axes: the first and the last two microseconds of every dekad of years spread over the whole
+    # calendar (an instant that passes through a float loses its last microseconds beyond ~285 years from 1970)
+    us = []
+    for year in (1, 2, 500, 1000, 1500, 1684, 1685, 1800, 1969, 1970, 2000, 2254, 2255, 2500, 3000, 5000, 7500, 9000, 9998):
+        for month in range(1, 13):
+            last = calendar.monthrange(year, month)[1]
+            for first_day, last_day in ((1, 10), (11, 20), (21, last)):
+                for d, h, mi, sec, usec in ((first_day, 0, 0, 0, 0), (first_day, 0, 0, 0, 1), (last_day, 23, 59, 59, 999998), (last_day, 23, 59, 59, 999999)):
+                    us.append(np.datetime64(f"{year:04d}-{month:02d}-{d:02d}T{h:02d}:{mi:02d}:{sec:02d}.{usec:06d}", "us"))
+    ranges.append(("us", np.array(us, dtype="datetime64[us]")))
     for name, tt in ranges:
         tt = np.asarray(tt)
         # intra-day times: rotate four offsets over the days
         offs = np.array([0, 1, 12 * 3600, 86399], dtype="timedelta64[s]")
-        tt2 = tt + offs[np.arange(len(tt)) % 4].astype(tt.dtype.str.replace("M8", "m8")) if name != "ns" else tt + pd.to_timedelta(np.array([0, 1, 43200, 86399])[np.arange(len(tt)) % 4], unit="s")
+        if name == "us":
+            tt2 = tt
+        else:
+            tt2 = tt + offs[np.arange(len(tt)) % 4].astype(tt.dtype.str.replace("M8", "m8")) if name != "ns" else tt + pd.to_timedelta(np.array([0, 1, 43200, 86399])[np.arange(len(tt)) % 4], unit="s")
         x = xr.DataArray(np.zeros(len(tt2), "int8"), dims="time", coords={"time": tt2})
         acc = x.time.dekad
         days = pd.DatetimeIndex(x.time.values) if name == "ns" else None
-        pyd = [pd.Timestamp(v).to_pydatetime() if name == "ns" else v.astype("datetime64[s]").item() for v in x.time.values]
+        pyd = [pd.Timestamp(v).to_pydatetime() if name == "ns" else v.astype("datetime64[us]" if name == "us" else "datetime64[s]").item() for v in x.time.values]
         scal = [Dekad(d) for d in pyd]
         ctx.count(sub, evaluations=len(tt2), states=len(tt2), traces_validated_against_impl=len(tt2), nontrivial=len(tt2))
         attrs = {
